@@ -119,6 +119,29 @@ class Program:
             self.modules[modname] = m
         for m in self.modules.values():
             self._index(m)
+        self._literal_tuples()
+
+    def _literal_tuples(self) -> None:
+        from . import astutil
+
+        found: dict = {}
+        for m in self.modules.values():
+            for st in m.tree.body:
+                tgt, val = None, None
+                if isinstance(st, ast.Assign) and len(st.targets) == 1 and isinstance(st.targets[0], ast.Name):
+                    tgt, val = st.targets[0].id, st.value
+                elif isinstance(st, ast.AnnAssign) and isinstance(st.target, ast.Name) and st.value is not None:
+                    tgt, val = st.target.id, st.value
+                if tgt is None:
+                    continue
+                if isinstance(val, ast.Call) and isinstance(val.func, ast.Name) and val.func.id in ("frozenset", "set", "tuple") and len(val.args) == 1:
+                    val = val.args[0]
+                if isinstance(val, (ast.Tuple, ast.List, ast.Set)) and val.elts and all(isinstance(e, ast.Constant) and isinstance(e.value, str) for e in val.elts):
+                    found.setdefault(tgt, set()).add(tuple(e.value for e in val.elts))
+        astutil.LITERAL_TUPLES.clear()
+        for k, v in found.items():
+            if len(v) == 1:
+                astutil.LITERAL_TUPLES[k] = next(iter(v))
 
     def _index(self, m: Module) -> None:
         def visit(node, cls, parent, prefix):
